@@ -353,7 +353,43 @@ def oracle_tables(P):
     def orc(case, impl):
         tr = SockTrace(case, impl)
         hits = []
+        slot_cid = {}     # (port, slot position) -> connection id of the pending connect holding that slot
         for st in tr.steps:
+            if st["op"] == "new":
+                slot_cid = {}
+            # connection ids chosen for outgoing connects: unique among pending connects and live connections of that peer
+            if st["fp"]:
+                def slots_of(fp):
+                    r = {}
+                    for c in (fp["connecting"] if fp else []):
+                        port = int(c.split("=")[0].split(":")[1])
+                        r[port] = c.split("=")[1].split(":")[0].split(".")
+                    return r
+                now_slots, old_slots = slots_of(st["fp"]), slots_of(st["fp_before"])
+                # slots that were freed
+                for (port, pos) in list(slot_cid):
+                    if now_slots.get(port, ["-"] * 4)[pos] == "-":
+                        del slot_cid[(port, pos)]
+                for port, hx in st["outs"]:
+                    try:
+                        d = parse_dgram(hx)
+                    except Exception:
+                        continue
+                    if d["type"] != ST_SYN:
+                        continue
+                    before = st["fp_before"]["streams"] if st["fp_before"] else []
+                    if f"127.0.0.1:{port}/{d['cid']}" in [x.replace("/dead", "") for x in before]:
+                        hits.append({"sig": {"oracle": "sock_tables", "what": "conn_id_of_live_connection_reused"},
+                                     "text": f"`{st['line'][:50]}`: SYN to {port} uses connection id {d['cid']} which a live connection with that peer already uses"})
+                    if d["cid"] in [c for (p2, _), c in slot_cid.items() if p2 == port]:
+                        hits.append({"sig": {"oracle": "sock_tables", "what": "conn_id_of_pending_connect_reused"},
+                                     "text": f"`{st['line'][:50]}`: SYN to {port} uses connection id {d['cid']}, the id of another connect to that peer that is still pending"})
+                    # which slot did this connect get (none if all four were busy: the request is dropped)
+                    o, n = old_slots.get(port, ["-"] * 4), now_slots.get(port, ["-"] * 4)
+                    for pos in range(4):
+                        if o[pos] == "-" and n[pos] != "-" and (port, pos) not in slot_cid:
+                            slot_cid[(port, pos)] = d["cid"]
+                            break
             if st["out"].startswith("PANIC"):
                 hits.append({"sig": {"oracle": "sock_tables", "what": "panic"}, "text": f"`{st['line'][:80]}` -> {st['out'][:160]}"})
                 break
